@@ -36,6 +36,7 @@ def table():  # noqa: C901
     INT = lambda c: c.Int()  # noqa: E731
     REAL = lambda c: c.Real()  # noqa: E731
     STR = lambda c: c.String()  # noqa: E731
+    RE = lambda c: c.RegLan()  # noqa: E731
     BVw = lambda c: c.BV(c.fresh_pos('w'))  # noqa: E731
     FPs = lambda c: c.FP(c.fresh_pos('eb', 2), c.fresh_pos('sb', 2))  # noqa
     same = lambda c, s: s  # noqa: E731
@@ -247,7 +248,19 @@ def table():  # noqa: C901
         ('str.++', (STR, STR), STR), ('str.at', (STR, INT), STR),
         ('str.substr', (STR, INT, INT), STR),
         ('str.replace', (STR, STR, STR), STR),
-        ('str.from_int', (INT, ), STR)):
+        ('str.from_int', (INT, ), STR), ('str.from_code', (INT, ), STR),
+        ('str.replace_all', (STR, STR, STR), STR),
+        ('str.replace_re', (STR, RE, STR), STR),
+        ('str.replace_re_all', (STR, RE, STR), STR),
+        ('str.in_re', (STR, RE), B), ('str.to_re', (STR, ), RE),
+        ('re.++', (RE, RE), RE), ('re.union', (RE, RE), RE),
+        ('re.inter', (RE, RE), RE), ('re.*', (RE, ), RE),
+        ('re.+', (RE, ), RE), ('re.opt', (RE, ), RE),
+        ('re.comp', (RE, ), RE), ('re.diff', (RE, RE), RE),
+        ('re.range', (STR, STR), RE),
+        # SMT-LIB 2.5 spellings still found in benchmarks
+        ('str.in.re', (STR, RE), B), ('str.to.int', (STR, ), INT),
+        ('int.to.str', (INT, ), STR), ('str.to.re', (STR, ), RE)):
 
         def build(c, op=op, args=args, res=res):
             return c.node(op, *[c.operand(a(c)) for a in args]), res(c)
